@@ -6,6 +6,11 @@
  */
 #include "mkfs.h"
 
+#if !defined(_WIN32) && !defined(__WINDOWS__)
+#include <unistd.h>
+#include <fcntl.h>
+#endif
+
 static int pack_file(sqfs_block_processor_t *data,
 		     const char *path, tree_node_t *n, const options_t *opt)
 {
@@ -52,16 +57,11 @@ done:
 	return ret;
 }
 
-static int pack_files(sqfs_block_processor_t *data, fstree_t *fs,
-		      options_t *opt)
+static int pack_files_in_cwd(sqfs_block_processor_t *data, fstree_t *fs,
+			     options_t *opt)
 {
 	tree_node_t *node;
 	int ret;
-
-	if (opt->packdir != NULL && chdir(opt->packdir) != 0) {
-		perror(opt->packdir);
-		return -1;
-	}
 
 	for (node = fs->files; node != NULL; node = node->next_by_type) {
 		const char *path = node->data.file.input_file;
@@ -91,6 +91,46 @@ static int pack_files(sqfs_block_processor_t *data, fstree_t *fs,
 	}
 
 	return 0;
+}
+
+static int pack_files(sqfs_block_processor_t *data, fstree_t *fs,
+		      options_t *opt)
+{
+	int ret;
+#if !defined(_WIN32) && !defined(__WINDOWS__)
+	int olddir = -1;
+
+	/*
+	 * The output file name may be relative to the directory we were
+	 * started in, and it is needed again to remove the file if anything
+	 * goes wrong. So remember where we came from and go back there.
+	 */
+	if (opt->packdir != NULL) {
+		olddir = open(".", O_RDONLY | O_DIRECTORY);
+		if (olddir < 0) {
+			perror("opening current working directory");
+			return -1;
+		}
+	}
+#endif
+
+	if (opt->packdir != NULL && chdir(opt->packdir) != 0) {
+		perror(opt->packdir);
+		ret = -1;
+	} else {
+		ret = pack_files_in_cwd(data, fs, opt);
+	}
+
+#if !defined(_WIN32) && !defined(__WINDOWS__)
+	if (olddir >= 0) {
+		if (fchdir(olddir) != 0) {
+			perror("returning to original working directory");
+			ret = -1;
+		}
+		close(olddir);
+	}
+#endif
+	return ret;
 }
 
 int main(int argc, char **argv)
